@@ -37,6 +37,109 @@ let name_of = function
   | s -> failwith ("pause point " ^ s)
 let res_s = function SOk -> "ok" | SErrDirty -> "dirty" | SErrOpen -> "already-open"
 
+
+(* ------------------------------------------------------------------------------------------------------------
+   mode `cg` (cg_cases.txt -> cg_model.txt): the commit-gap schedules replayed grant by grant on the extracted
+   Conc/CommitGap.v.
+   input:  id|kind|txid=|last=|live=id:cnt,..|valid=sp:txn,..|pending=id:anc,..|freed=txn:p.p;..|alloc=txn:p.p;..|
+           allocated=p.p|ownfreed=p.p|ownalloc=p.p|drop=sp:txn|grants=<tid>><pause point or done> ...
+   The committer's own DATA_FREED / DATA_ALLOCATED records are written after the snapshot was taken: whether they
+   exist is not observable beforehand, so the model is run for each possibility (own freed record present: forced when the
+   transaction had unlinked committed pages already; own allocated record present) and prints one line per variant:
+           id|V<f><a>|last=|live=|valid=|pending=|freed=keys|alloc=keys|#diagnostics
+           or id|V<f><a>|WF-FAIL / MODEL-... at <grant> *)
+let field (name : string) (f : string) : string =
+  let pre = name ^ "=" in
+  let lp = String.length pre in
+  if String.length f >= lp && String.sub f 0 lp = pre then String.sub f lp (String.length f - lp) else failwith ("field " ^ name ^ " in " ^ f)
+let split_ne c s = List.filter (fun x -> x <> "") (String.split_on_char c s)
+let pair_list s = List.map (fun e -> match String.split_on_char ':' e with
+    | [a; b] -> (int_of_string a, int_of_string b) | _ -> failwith ("pair " ^ e)) (split_ne ',' s)
+let table_of s = List.map (fun e -> match String.split_on_char ':' e with
+    | [k; ps] -> (int_of_string k, List.map int_of_string (split_ne '.' ps)) | _ -> failwith ("entry " ^ e)) (split_ne ';' s)
+let rec remove_one x = function [] -> None | y :: r -> if x = y then Some r else (match remove_one x r with Some r' -> Some (y :: r') | None -> None)
+let pause_of = function
+  | GOldestLive1 | GOldestLive2 -> "T.oldest_live_read" | GHorizon -> "X.durable_commit.horizon" | GOldestSp -> "T.oldest_savepoint"
+  | GCommitBegin -> "M.commit.begin" | GUClear -> "U.clear" | GPublish -> "M.commit.publish" | GClearPending -> "T.clear_pending_nd"
+  | GInvalidate -> "T.invalidate_savepoints" | GEpiHorizon -> "X.epilogue.horizon" | GUExtend -> "U.extend" | GNdPublish -> "M.nd.publish"
+  | GReserveId -> "T.reserve_id" | GRegisterNd -> "T.register_nd" | GEndWrite -> "T.end_write"
+  | GDeallocSp -> "T.dealloc_savepoint" | GDeallocRead -> "T.dealloc_read"
+  | GRegisterRead -> "T.register_read" | GReadRegistered -> "X.begin_read.registered" | GDeallocReadTx -> "T.dealloc_read"
+let counts (l : int list) : string =
+  let l = List.sort compare l in
+  let rec go acc = function
+    | [] -> List.rev acc
+    | x :: r -> (match acc with (y, c) :: a when y = x -> go ((y, c + 1) :: a) r | _ -> go ((x, 1) :: acc) r) in
+  String.concat "," (List.map (fun (a, b) -> Printf.sprintf "%d:%d" a b) (go [] l))
+let keys (t : (n * n list) list) : string =
+  String.concat "," (List.map string_of_int (List.sort_uniq compare (List.map (fun (k, _) -> int_of_n k) t)))
+let pairs (l : (n * n) list) : string = String.concat "," (List.map (fun (a, b) -> Printf.sprintf "%d:%d" (int_of_n a) (int_of_n b)) l)
+let nl = List.map n_of_int
+let ntab = List.map (fun (k, ps) -> (n_of_int k, nl ps))
+let pseudo_f = 1 lsl 60
+let pseudo_a = (1 lsl 60) + 1
+
+let cg_line (line : string) : unit =
+  match String.split_on_char '|' line with
+  | [id; _kind; txid; last; live; valid; pending; freed; alloc; allocated; ownfreed; ownalloc; drop; grants] ->
+    let txid = int_of_string (field "txid" txid) and last = int_of_string (field "last" last) in
+    let live = List.concat_map (fun (i, c) -> List.init c (fun _ -> i)) (pair_list (field "live" live)) in
+    let valid = pair_list (field "valid" valid) and pending = pair_list (field "pending" pending) in
+    let freed = table_of (field "freed" freed) and alloc = table_of (field "alloc" alloc) in
+    let allocated = List.map int_of_string (split_ne '.' (field "allocated" allocated)) in
+    let ownfreed = List.map int_of_string (split_ne '.' (field "ownfreed" ownfreed)) in
+    let ownalloc = List.map int_of_string (split_ne '.' (field "ownalloc" ownalloc)) in
+    let drop = pair_list (field "drop" drop) in
+    let grants = split_ne ' ' (field "grants" grants) in
+    (* every pin has an owner: a pending non-durable commit, a valid savepoint, or somebody who keeps it *)
+    let owned = List.map snd pending @ List.map snd valid in
+    let held = List.fold_left (fun acc x -> match acc with None -> None | Some l -> remove_one x l) (Some live) owned in
+    let variants = List.concat_map (fun f -> List.map (fun a -> (f, a)) [true; false]) (if ownfreed <> [] then [true] else [true; false]) in
+    List.iter (fun (f, a) ->
+      let tag = Printf.sprintf "%s|V%d%d" id (if f then 1 else 0) (if a then 1 else 0) in
+      match held with
+      | None -> Printf.printf "%s|WF-FAIL a valid savepoint or a pending non-durable commit holds no pin\n" tag
+      | Some held ->
+        let fpages = if ownfreed <> [] then ownfreed else [pseudo_f] and apages = if ownalloc <> [] then ownalloc else [pseudo_a] in
+        let freed' = if f then freed @ [(txid, fpages)] else freed and alloc' = if a then alloc @ [(txid, apages)] else alloc in
+        let allocated' = allocated @ (if f && ownfreed = [] then [pseudo_f] else []) @ (if a && ownalloc = [] then [pseudo_a] else []) in
+        let npairs = List.map (fun (x, y) -> (n_of_int x, n_of_int y)) in
+        let s0 = ginit (n_of_int txid) (n_of_int last) (nl (owned @ held)) (npairs valid) (npairs pending) (nl held)
+            (ntab freed') (ntab alloc') (nl allocated') in
+        if not (wf_init_b s0) then Printf.printf "%s|WF-FAIL the initial state does not satisfy wf_init_b\n" tag
+        else begin
+          let progs = [[GCommit]; (match drop with [(sp, t)] -> [GDrop (n_of_int sp, n_of_int t)] | _ -> [])] in
+          let pool = ref (gstart progs) and st = ref s0 and err = ref None in
+          List.iteri (fun i g ->
+            if !err = None then
+              match String.index_opt g '>' with
+              | None -> err := Some ("BAD " ^ g)
+              | Some j ->
+                let t = int_of_string (String.sub g 0 j) and ev = String.sub g (j + 1) (String.length g - j - 1) in
+                (match ggrant faithful (nat_of_int t) !pool !st with
+                 | None -> err := Some (Printf.sprintf "MODEL-VOID at grant %d (%s): the model's thread has nothing left to do" i g)
+                 | Some ((p', s'), e) ->
+                   let me = (match e with EAt x -> pause_of x | EBlocked -> "blocked" | EDone _ -> "done") in
+                   if me <> ev then err := Some (Printf.sprintf "MODEL-EVENT-MISMATCH at grant %d (%s): the model stops at %s" i g me)
+                   else (pool := p'; st := s'))) grants;
+          match !err with
+          | Some m -> Printf.printf "%s|%s\n" tag m
+          | None ->
+            let s = !st in
+            let safe = alloc_ok_b s && reach_ok_b s0 s in
+            Printf.printf "%s|last=%d|live=%s|valid=%s|pending=%s|freed=%s|alloc=%s|#main=%s epi=%s purged=%s h1=%d sph=%s eh=%d pc=%d safe=%b\n" tag
+              (int_of_n s.g_last) (counts (List.map int_of_n s.g_live)) (pairs s.g_valid) (pairs s.g_pending) (keys s.g_freed) (keys s.g_alloc)
+              (keys s.g_gone_main) (keys s.g_gone_epi) (String.concat "," (List.map (fun k -> string_of_int (int_of_n k)) s.g_purged))
+              (int_of_n s.g_h1) (match s.g_sph with Some h -> string_of_int (int_of_n h) | None -> "MAX") (int_of_n s.g_eh) (int_of_n s.g_pc) safe
+        end) variants
+  | _ -> print_endline "BADLINE"
+
+let () =
+  if Array.length Sys.argv > 1 && Sys.argv.(1) = "cg" then begin
+    (try while true do cg_line (input_line stdin) done with End_of_file -> ());
+    exit 0
+  end
+
 let () =
   try
     while true do
